@@ -65,7 +65,8 @@ fn ratio(carrier: &str, red: (f64, f64)) -> f64 {
         "BIOMASADENSIFICADA" => 1.028 / (1.028 + 0.085),
         "RED1" | "RED2" => {
             if red.0 + red.1 == 0.0 {
-                f64::NAN
+                // a network without primary energy (waste heat): nothing renewable is delivered
+                0.0
             } else {
                 red.0 / (red.0 + red.1)
             }
@@ -173,7 +174,7 @@ impl StateCheck for C15 {
             return;
         }
         let reds: Vec<(&str, Option<(f32, f32, f32)>, (f64, f64))> = if mix.starts_with("red") {
-            vec![("default", None, (0.0, 1.3)), ("1,0,0", Some((1.0, 0.0, 0.0)), (1.0, 0.0)), ("0.5,0.5,0.1", Some((0.5, 0.5, 0.1)), (0.5, 0.5))]
+            vec![("default", None, (0.0, 1.3)), ("1,0,0", Some((1.0, 0.0, 0.0)), (1.0, 0.0)), ("0.5,0.5,0.1", Some((0.5, 0.5, 0.1)), (0.5, 0.5)), ("0,0,0.02", Some((0.0, 0.0, 0.02)), (0.0, 0.0))]
         } else {
             vec![("default", None, (0.0, 1.3))]
         };
